@@ -1,13 +1,17 @@
 (* C15 - the incremental validity index equals the batch index and gates
-   assignments.  Statements only.  PARTIAL: the recurrences are proved on the
-   sufficient statistics of one coordinate (the index is a ratio of sums over
-   coordinates of exactly these quantities); the lifting of the whole
-   dictionary-valued state over arbitrary add/switch sequences is validated,
-   not proved: the correspondence evaluates the model's incremental value
-   against the batch index of the current labelled data with exact rational
-   equality after every operation. *)
+   assignments.  Statements only.
+   FIRST SENTENCE, in full: C15_any_permitted_sequence_tracks_the_batch_index -
+   after any interleaving of add_sample / switch_label (+ update) that the API
+   permits, every operation was defined and the tracked criterion value is the
+   batch Calinski-Harabasz index of the current labelled data (exact reals; 0 by
+   convention while the index is undefined).  The one-step theorems
+   (C15_add_sample_step, C15_switch_label_step) expose the invariant.
+   The *_partial theorems are the scalar recurrences the proof is built from.
+   GATE: C15_gate (kernel-abstract).  Still validated rather than proved: that
+   iCVIFuzzyART.fit issues exactly such a permitted sequence whose final data is
+   (X, labels_) - compared with the model on every run by RunICVI.ifcheck. *)
 From Coq Require Import List Bool Arith Reals.
-From ART Require Import Num NumR Vec Search Kernel BaseArt ICVI ICVI_R VecR ICVI_full.
+From ART Require Import Num NumR Vec Search Kernel BaseArt ICVI ICVI_R VecR ICVI_full ICVI_switch.
 Import ListNotations.
 Open Scope R_scope.
 
@@ -70,11 +74,26 @@ Theorem C15_add_sample_step : forall d (s : @ch RN) (D : list (list R * nat)) (x
             @batch_ch RN (D ++ [(x, l)]) d = Some (h_crit (@update RN s p)).
 Proof. exact add_sample_inv. Qed.
 
+(* moving a sample to another (existing or brand-new) cluster; the API refuses to empty a cluster *)
+Theorem C15_switch_label_step : forall d (s : @ch RN) (D : list (list R * nat)) (j : nat) (x : list R) (lold lnew : nat),
+  Struct d s D -> nth_error D j = Some (x, lold) -> lnew <> lold -> (2 <= length (members D lold))%nat ->
+  exists p, @switch_label RN s x lold lnew = Some p /\
+            Struct d (@update RN s p) (set_nth j (x, lnew) D) /\
+            @batch_ch RN (set_nth j (x, lnew) D) d = Some (h_crit (@update RN s p)).
+Proof. exact switch_label_inv. Qed.
+(* any interleaving the API permits, from the empty index *)
+Theorem C15_any_permitted_sequence_tracks_the_batch_index : forall (d : nat) (ops : list iop),
+  all_permitted d [] ops ->
+  exists s D, run_ops ops (@ch_init RN d, []) = Some (s, D) /\
+              @batch_ch RN D d = Some (h_crit s).
+Proof. exact icvi_tracks_batch_index. Qed.
+
 (* the gate: joining an existing cluster requires the validity test (strict improvement) to have passed *)
 Theorem C15_gate : forall (K : Kernel RN) (s : st (N:=RN)) x (improves : nat -> bool) m eps s' c vl,
   step_fit K s x (Some improves) m eps = Some (s', c, vl) -> (c < length (W s))%nat -> improves c = true.
 Proof. exact icvi_gate. Qed.
 Print Assumptions C15_adds_track_the_batch_index.
+Print Assumptions C15_any_permitted_sequence_tracks_the_batch_index.
 Print Assumptions C15_cp_add_partial.
 Print Assumptions C15_gate.
 
@@ -87,3 +106,9 @@ Example C15_example :
   option_map (@h_crit QN) (fold_left add D (Some (@ch_init QN 1))) = @batch_ch QN D 1
   /\ @batch_ch QN D 1 <> None /\ @batch_ch QN D 1 <> Some 0.
 Proof. vm_compute. repeat split; discriminate. Qed.
+
+(* non-vacuity of the sequence theorem: adds and a switch that are all permitted, value <> 0 *)
+Example C15_example_ops :
+  let ops := [OAdd [0%R] 0; OAdd [1%R] 0; OAdd [4%R] 1; OAdd [5%R] 1; OSwitch 1 1] in
+  all_permitted 1 [] ops.
+Proof. cbn. repeat split; try reflexivity. exists [1%R], 0%nat. split; [reflexivity|right; cbn; auto]. Qed.
